@@ -473,3 +473,19 @@ def rights_from_every_attribute(ctx):
     the policy open it) (C01.canon)."""
     from . import c01
     c01.canon(ctx)
+
+
+@rule('C02', 'star-is-the-identity-of-and')
+def star_identity(ctx):
+    """A policy `x && *` targets x, not everybody: the conjunction with Broadcast returns its other operand (C15.and-or-identities)."""
+    from . import c15
+    c15.and_or_identities(ctx)
+
+
+@rule('C02', 'distinct-secrets', configs=('default', 'p256'))
+def distinct_secrets(ctx):
+    """Two rights never share a secret: every secret is drawn from the one RNG stream that advances with every draw — never
+    from a copy of its state (C16.rng-threading, C16.ids-and-secrets). A shared secret lets a key for one right open the other."""
+    from . import c16
+    c16.rng_threading(ctx)
+    c16.ids_and_secrets(ctx)
